@@ -3,18 +3,19 @@
 # undo. Any VIOLATION / non-zero exit is a false alarm of the machinery (or the change is not benign after all).
 export VERIF_NO_EVIDENCE=1
 cd "$(dirname "$0")/.."
+REPO="${VERIF_REPO:-/repo}"
 export GOFLAGS=-mod=mod GOPROXY=off GOSUMDB=off GOTOOLCHAIN=local
 for p in "$@"; do
   p=$(readlink -f "$p")
-  [ -z "$(git -C /repo status --porcelain)" ] || { echo "/repo not clean"; exit 2; }
-  git -C /repo apply "$p" || { echo "$p: does not apply"; continue; }
-  if ! (cd /repo && go build ./... && go build -tags verif ./... && go test -vet=off -count=1 ./... >/tmp/mut/benign_suite.log 2>&1); then
-     echo "$p: build or suite fails"; git -C /repo checkout -- .; continue; fi
+  [ -z "$(git -C "$REPO" status --porcelain)" ] || { echo "$REPO not clean"; exit 2; }
+  git -C "$REPO" apply "$p" || { echo "$p: does not apply"; continue; }
+  if ! (cd "$REPO" && go build ./... && go build -tags verif ./... && go test -vet=off -count=1 ./... >/tmp/mut/benign_suite.log 2>&1); then
+     echo "$p: build or suite fails"; git -C "$REPO" checkout -- .; continue; fi
   for id in ${CHECKS:-C01 C02 C03 C04 C05 C06 C07 C08 C09 C10 C11 C12 C13 C14 C15 C16 C17 C18 C19 C20}; do
     out=$(./check $id quick 2>&1); rc=$?
     if [ $rc -ne 0 ]; then echo "$(basename $(dirname $p))/$(basename $p) $id rc=$rc"; echo "$out" | grep -v '^  \|WARNING' | tail -6 | cut -c1-400; fi
   done
   echo "$(basename $(dirname $p))/$(basename $p) done"
-  git -C /repo checkout -- .
+  git -C "$REPO" checkout -- .
 done
 git checkout -- evidence 2>/dev/null
